@@ -213,30 +213,7 @@ def run(ctx):
         good = good and "with_state_key" in keyx and "Event::event_type" in keyx
     ctx.check(good, "C07.auth", "C07.auth:insert-iff-ok", w.where(f), bad_msg="the event is inserted on a path that does not come from auth_check's Ok result (or under a foreign key)")
 
-    # ---- the sort key does not depend on the order of an event's auth_events -------------------------------------------------------
-    ctx.rule("C07.power-level-scan", "get_power_level_for_sender leaves the loop over the event's auth_events early only once it has seen the power-levels event AND knows "
-                                     "the creator (cached, or the create event): the order in which a PDU lists its auth events is arbitrary, and without the "
-                                     "creator the function falls back to users_default for every sender")
-    fpl = w.fn(SR + "get_power_level_for_sender")
-    dexp2 = D.Dex(w.lookup, adt_discr=w.adt_discr, ctors=w.ctors, unroll=2, max_paths=400000, inline=lambda n: "{closure" in n)
-    n_break, bad = 0, []
-    for pth in dexp2.paths(fpl, [D.sym(x) for x in ["event_id", "rules", "creator_lock", "fetch_event"]]):
-        if pth.kind != "ret":
-            continue
-        conds = [(D.show_atom(a), t) for a, t in pth.conds]
-        nexts = [(a, t) for a, t in conds if a.startswith("Iterator::next(") and " is " in a and t]
-        if not nexts or nexts[-1][0].endswith(" is None"):
-            continue                 # no loop, or the list was exhausted
-        n_break += 1
-        seen = {("PL" if "RoomPowerLevels" in a else "CR") for a, t in conds if "is_type_and_key(" in a and t}
-        cached = ("OnceLock::get(creator_lock) is Some", True) in conds
-        need = {"PL"} if cached else {"PL", "CR"}
-        if not need <= seen:
-            bad.append((sorted(seen), cached))
-    ctx.check(n_break >= 2 and not bad, "C07.power-level-scan", "C07.power-level-scan:early-exit", w.where(fpl),
-              ok_msg=f"{n_break} early exits, each after the power levels and the creator are known",
-              bad_msg=f"the scan of auth_events stops after seeing only {bad[0][0] if bad else '?'} (creator cached: {bad[0][1] if bad else '?'}): an event that lists "
-                      f"m.room.power_levels before m.room.create gets users_default instead of the sender's level as its sort key")
+    power_level_scan(ctx, w, "C07.power-level-scan")
 
     # ---- set algebra -----------------------------------------------------------------------------------------------------
     ctx.rule("C07.sets", "get_auth_chain_diff keeps an id iff it is in fewer sets than there are sets; separate: unconflicted iff the (key, id) pair occurs in every state set")
@@ -277,6 +254,34 @@ def run(ctx):
     ctx.check(good and len(eqs) == 1, "C07.sets", "C07.sets:separate", w.where(f), bad_msg="unconflicted test is not `occurrences == number of state sets`")
     ctx.assumptions += ["equality of the resolved state with the specification's algorithm on all histories is not decided"]
     ctx.samples += [{"clause": "unconflicted state written last", "effect": "HashMap::extend(resolved_state, clean) is the final effect before Ok"}]
+
+
+def power_level_scan(ctx, w, rule):
+    # ---- the sort key does not depend on the order of an event's auth_events -------------------------------------------------------
+    ctx.rule(rule, "get_power_level_for_sender leaves the loop over the event's auth_events early only once it has seen the power-levels event AND knows "
+                                     "the creator (cached, or the create event): the order in which a PDU lists its auth events is arbitrary, and without the "
+                                     "creator the function falls back to users_default for every sender")
+    fpl = w.fn(SR + "get_power_level_for_sender")
+    dexp2 = D.Dex(w.lookup, adt_discr=w.adt_discr, ctors=w.ctors, unroll=2, max_paths=400000, inline=lambda n: "{closure" in n)
+    n_break, bad = 0, []
+    for pth in dexp2.paths(fpl, [D.sym(x) for x in ["event_id", "rules", "creator_lock", "fetch_event"]]):
+        if pth.kind != "ret":
+            continue
+        conds = [(D.show_atom(a), t) for a, t in pth.conds]
+        nexts = [(a, t) for a, t in conds if a.startswith("Iterator::next(") and " is " in a and t]
+        if not nexts or nexts[-1][0].endswith(" is None"):
+            continue                 # no loop, or the list was exhausted
+        n_break += 1
+        seen = {("PL" if "RoomPowerLevels" in a else "CR") for a, t in conds if "is_type_and_key(" in a and t}
+        cached = ("OnceLock::get(creator_lock) is Some", True) in conds
+        need = {"PL"} if cached else {"PL", "CR"}
+        if not need <= seen:
+            bad.append((sorted(seen), cached))
+    ctx.check(n_break >= 2 and not bad, rule, f"{rule}:early-exit", w.where(fpl),
+              ok_msg=f"{n_break} early exits, each after the power levels and the creator are known",
+              bad_msg=f"the scan of auth_events stops after seeing only {bad[0][0] if bad else '?'} (creator cached: {bad[0][1] if bad else '?'}): an event that lists "
+                      f"m.room.power_levels before m.room.create gets users_default instead of the sender's level as its sort key")
+
 
 
 def remaining_by_loop(w, f):
